@@ -280,9 +280,10 @@ func expectation(cont, key stick.Value, args []stick.Value) (mode expMode, cands
 			return loosen(mustElem), []interface{}{rv.Index(int(f)).Interface()}
 		case string:
 			f, err := strconv.ParseFloat(k, 64)
-			if err != nil || f < 0 || f >= float64(n) || f != math.Trunc(f) {
+			if err != nil || math.IsNaN(f) || f < 0 || f >= float64(n) {
 				return mustErr, nil
 			}
+			// integral or not: the statement does not say whether a fractional index is truncated or refused
 			return elemOrErr, []interface{}{rv.Index(int(f)).Interface()}
 		case bool:
 			i := 0
